@@ -1,7 +1,7 @@
 #!/venv/bin/python
 """Confirm a seeded defect delivered by a sub-agent and run my checks against it.
 
-usage: tools/seedcheck.py <agent_worktree> <ID> <k> [CHECK_ID ...] [--seed=N]
+usage: tools/seedcheck.py <agent_worktree> <ID> <k> [CHECK_ID ...] [--seed=N] [--as=K (store as seeded/<ID>-K)]
  1. scratch worktree of /repo HEAD: demo PASSes on clean tree; patch applies; overlay builds; 36 tests pass; demo FAILs
  2. store as /verif/seeded/<ID>-<k>/ (patch.diff, demo.py, meta.json + what I ran)
  3. apply the patch to /repo, run ./check for each CHECK_ID (default: ID), undo (git checkout -- .)
@@ -20,7 +20,8 @@ def main():
     wt_agent, pid, k = args[0], args[1].upper(), args[2]
     checks = [c.upper() for c in args[3:]] or [pid]
     src = os.path.join(wt_agent, "SEEDED", k)
-    dst = os.path.join(V, "seeded", "%s-%s" % (pid, k))
+    store = [a.split("=")[1] for a in sys.argv[1:] if a.startswith("--as=")]
+    dst = os.path.join(V, "seeded", "%s-%s" % (pid, store[0] if store else k))
     os.makedirs(dst, exist_ok=True)
     for f in ("patch.diff", "demo.py", "meta.json"):
         shutil.copy(os.path.join(src, f), dst)
